@@ -6,6 +6,8 @@ import IcontractModel.Meta
 import IcontractModel.Lemmas.MetaFrame
 import IcontractModel.Lemmas.Separation
 import IcontractModel.Spec.Override
+import IcontractModel.Spec.DagHistoryInv
+import IcontractModel.Lemmas.DagInvLemmas
 namespace Icontract.Meta
 
 /-- everything introspection can show about the functions and classes that exist in `w` is a function of
@@ -97,5 +99,19 @@ theorem C17_defineClass_preserves_separation (w w' : World) (k : ClsId) (bases :
     (h : defineClass w k bases ns dbc = .ok w') :
     Separated w' ∧ CheckersWf w' := by
   exact defineClass_sepWf w w' k bases ns dbc true h ⟨hsep, hwf⟩
+
+/-! ### class invariants over inheritance graphs of any shape -/
+
+/-- separation, stated directly: an invariant declared on class `j+1` is in the lists of class `i+1` only if `j+1` is one
+of its ancestors (or the class itself) -/
+theorem C17_dag_foreign_invariants_never_arrive (ds : List ClassDefI) (hwf : HistWfI ds) (w : World)
+    (h : buildHistI {} 1 ds = .ok w) (i j : Nat) (hi : i < ds.length) (hj : j < ds.length) (d : InvDunder) (c : CId)
+    (hc : c ∈ ownInvOn ds j d) (hin : c ∈ invOf w (i + 1) d) : (j + 1) ∈ mroOf w (i + 1) := by
+  obtain ⟨a, ha, hca⟩ := (buildHistI_observe ds hwf w h i hi d c).mp hin
+  have hbd := (buildHistI_mro_bounds ds hwf w h i hi a ha).1
+  have e : j = a - 1 := ownInvOn_idx ds hwf j (a - 1) d d c hc hca
+  have : j + 1 = a := by omega
+  rw [this]
+  exact ha
 
 end Icontract.Meta
